@@ -376,6 +376,100 @@ def window_scope(width, height, lo, hi, mmax):
             yield {"col": {"first": cf, "last": cl}, "row": {"first": rf, "last": rl}, "margins": [ml, mu, mr, md]}
 
 
+
+# ------------------------------------------------------------------------------------------------
+# shrinking of a failing dataset case (same clause and trigger must keep failing)
+# ------------------------------------------------------------------------------------------------
+def _crop_case(case, r0, r1, c0, c1):
+    out = copy.deepcopy(case)
+    out["rows"], out["cols"] = r1 - r0, c1 - c0
+    out["bands"] = [[row[c0:c1] for row in band[r0:r1]] for band in case["bands"]]
+    if case["mask"] is not None:
+        out["mask"] = [row[c0:c1] for row in case["mask"][r0:r1]]
+    if isinstance(case["disp"], dict):
+        out["disp"] = {"grid": [[row[c0:c1] for row in band[r0:r1]] for band in case["disp"]["grid"]]}
+    if case["classif"] is not None:
+        out["classif"] = {"names": case["classif"]["names"], "px": [[row[c0:c1] for row in band[r0:r1]] for band in case["classif"]["px"]]}
+    if case["segm"] is not None:
+        out["segm"] = [row[c0:c1] for row in case["segm"][r0:r1]]
+    return out
+
+
+def _candidates(case):
+    if case.get("roi") is not None:
+        yield dict(case, roi=None)
+    for k in ("classif", "segm"):
+        if case.get(k) is not None:
+            yield dict(case, **{k: None})
+    if case["disp"] not in ("absent",):
+        yield dict(case, disp="absent")
+    if case["mask"] is not None:
+        yield dict(case, mask=None, mask_key="absent")
+    if len(case["bands"]) > 1:
+        for b in range(len(case["bands"])):
+            yield dict(case, bands=[case["bands"][b]], band_names=[case["band_names"][b]])
+    if case.get("roi") is None:  # cropping changes the meaning of ROI coordinates: only without ROI
+        R, C = case["rows"], case["cols"]
+        if R > 1:
+            yield _crop_case(case, 0, R // 2 if R > 2 else 1, 0, C)
+            yield _crop_case(case, R // 2 if R > 2 else 1, R, 0, C)
+            yield _crop_case(case, 1, R, 0, C)
+            yield _crop_case(case, 0, R - 1, 0, C)
+        if C > 1:
+            yield _crop_case(case, 0, R, 0, C // 2 if C > 2 else 1)
+            yield _crop_case(case, 0, R, C // 2 if C > 2 else 1, C)
+            yield _crop_case(case, 0, R, 1, C)
+            yield _crop_case(case, 0, R, 0, C - 1)
+    else:
+        roi = case["roi"]
+        if any(roi["margins"]):
+            yield dict(case, roi=dict(roi, margins=[0, 0, 0, 0]))
+        R, C = case["rows"], case["cols"]  # dropping the last rows / columns keeps the meaning of the ROI coordinates
+        if R > 1:
+            yield _crop_case(case, 0, R // 2 if R > 2 else 1, 0, C)
+            yield _crop_case(case, 0, R - 1, 0, C)
+        if C > 1:
+            yield _crop_case(case, 0, R, 0, C // 2 if C > 2 else 1)
+            yield _crop_case(case, 0, R, 0, C - 1)
+
+
+def shrink(ctx, params, failure, budget=120):
+    """greedy: apply the first candidate that keeps (clause, trigger) failing, until none does"""
+    case = failure["case"]
+    if case.get("kind") != "dataset":
+        return failure
+    best = failure
+    progress = True
+    while progress and budget > 0:
+        progress = False
+        for cand in _candidates(best["case"]):
+            budget -= 1
+            sub = core.Report(PROP, ctx.tier, ctx.seed)
+            try:
+                check_dataset_case(ctx, sub, cand, params, "shrink")
+            except Exception:  # pylint: disable=broad-except
+                continue
+            hit = next((f for f in sub.failures if f["clause"] == failure["clause"] and f["trigger"] == failure["trigger"]), None)
+            if hit is not None:
+                best = hit
+                progress = True
+                break
+            if budget <= 0:
+                break
+    return best
+
+
+def shrink_first_unknown(ctx, report, params):
+    known = core.load_known(PROP)
+    for i, f in enumerate(report.failures):
+        if not any(k.get("clause") == f["clause"] and k.get("trigger") == f["trigger"] for k in known):
+            small = shrink(ctx, params, f)
+            if small is not f:
+                small = dict(small, detail=(small.get("detail") or "") + " [shrunk from a larger generated case]")
+                report.failures[i] = small
+            return
+
+
 def check_case(ctx, report, case, params, label=""):
     if case.get("kind") == "window":
         check_window_case(ctx, report, case, params)
@@ -421,6 +515,7 @@ def run(ctx, report, status):
                 c2["roi"] = {"col": {"first": cf, "last": cl}, "row": {"first": rf, "last": rl}, "margins": m}
                 check_dataset_case(ctx, report, c2, params, "exh")
         report.exhaustive = True
+    shrink_first_unknown(ctx, report, params)
 
 
 def search(ctx, report, status):
@@ -444,7 +539,7 @@ def search(ctx, report, status):
     for _ in range(1500):
         check_dataset_case(ctx, sub, gen_case(rng), params, "search")
         if fresh():
-            return fresh()
+            return shrink(ctx, params, fresh())
     return None
 
 
@@ -460,4 +555,9 @@ def replay(ctx, report, path):
     for d in report.disagreements:
         print("disagreement:", json.dumps(d)[:800])
     print("replayed: failures=%d disagreements=%d" % (len(report.failures), len(report.disagreements)))
+    # a replay file written by a run names the clause that failed: the verdict is about that clause (the same input
+    # may also exhibit a known finding, which is printed above but is not what is being replayed)
+    wanted = data.get("clause") if isinstance(data, dict) and "input" in data else None
+    if wanted:
+        return 1 if any(fl["clause"] == wanted for fl in report.failures) else 0
     return 1 if report.failures else 0
